@@ -737,6 +737,102 @@ def OpExpr.sharedPattern (p : SharedPattern) (a : Mat) (nz : Bool) : OpExpr :=
   | .addNeg => .add (.coneighbor a nz) (.neg (.coneighbor a nz))
   | .mulAdd => .add (.mul (.coneighbor a nz) 2) (.coneighbor a nz)
 
+/-! ### programs: operator objects used several times
+
+A program binds one operator per statement; a statement may use any operator bound before, any number of times
+(`a + b`, then `a - b`, then `a.T` …).  In the model operators are values: executing a statement appends a value to the
+environment and cannot change the values already there.  This is what the code has to refine — an operation that
+modifies one of its operands in place (finding F16i for CoNeighbor; `low_rank_tuples +=` in a seeded change of
+`SparseLR.__add__`) departs from it, and the harness re-evaluates the operands after every statement. -/
+
+inductive Stmt
+  | leaf (e : OpExpr)
+  | neg (i : Nat)
+  | mul (i : Nat) (c : Rat)
+  | transpose (i : Nat)
+  | add (i j : Nat)
+  | sub (i j : Nat)
+  | addCsr (i : Nat) (a : Mat)
+  | subCsr (i : Nat) (a : Mat)
+  | leftDot (m : Mat) (i : Nat)
+  | rightDot (i : Nat) (m : Mat)
+  | astype (i : Nat)
+  | d2u (i : Nat)
+  | b2d (i : Nat)
+  | b2u (i : Nat)
+  | normalize (i : Nat)
+deriving Repr
+
+/-- the operator bound by statement `i` (an unbound index is a Python `IndexError` of the harness, never generated) -/
+def envGet (env : List Op) (i : Nat) : Except PyErr Op :=
+  match env[i]? with
+  | some o => .ok o
+  | none => .error .indexError
+
+namespace Stmt
+
+/-- execute one statement in an environment of operator values -/
+def exec (env : List Op) : Stmt → Except PyErr Op
+  | leaf e => e.eval
+  | neg i => do (← envGet env i).neg
+  | mul i c => do (← envGet env i).mul c
+  | transpose i => do (← envGet env i).transpose
+  | add i j => do
+    let a ← envGet env i
+    let b ← envGet env j
+    a.add b
+  | sub i j => do
+    let a ← envGet env i
+    let b ← envGet env j
+    a.sub b
+  | addCsr i a => do (← envGet env i).addCsr a
+  | subCsr i a => do (← envGet env i).subCsr a
+  | leftDot m i => do Op.leftDot m (← envGet env i)
+  | rightDot i m => do (← envGet env i).rightDot m
+  | astype i => do (← envGet env i).astype
+  | d2u i => do (← envGet env i).d2u
+  | b2d i => do (← envGet env i).b2d
+  | b2u i => do (← envGet env i).b2u
+  | normalize i => do (← envGet env i).normalize
+
+/-- the expression (tree) a statement denotes, given the trees of the operators bound before -/
+def unfold (trees : List OpExpr) : Stmt → Option OpExpr
+  | leaf e => some e
+  | neg i => do pure (.neg (← trees[i]?))
+  | mul i c => do pure (.mul (← trees[i]?) c)
+  | transpose i => do pure (.transpose (← trees[i]?))
+  | add i j => do pure (.add (← trees[i]?) (← trees[j]?))
+  | sub i j => do pure (.sub (← trees[i]?) (← trees[j]?))
+  | addCsr i a => do pure (.addCsr (← trees[i]?) a)
+  | subCsr i a => do pure (.subCsr (← trees[i]?) a)
+  | leftDot m i => do pure (.leftDot m (← trees[i]?))
+  | rightDot i m => do pure (.rightDot (← trees[i]?) m)
+  | astype i => do pure (.astype (← trees[i]?))
+  | d2u i => do pure (.d2u (← trees[i]?))
+  | b2d i => do pure (.b2d (← trees[i]?))
+  | b2u i => do pure (.b2u (← trees[i]?))
+  | normalize i => do pure (.normalize (← trees[i]?))
+
+end Stmt
+
+namespace Prog
+
+/-- run the statements one after the other: every statement appends the operator it builds -/
+def run : List Stmt → List Op → Except PyErr (List Op)
+  | [], env => .ok env
+  | s :: ss, env => do
+    let o ← s.exec env
+    run ss (env ++ [o])
+
+/-- unfold the statements into the trees they denote -/
+def unfold : List Stmt → List OpExpr → Option (List OpExpr)
+  | [], trees => some trees
+  | s :: ss, trees => do
+    let t ← s.unfold trees
+    unfold ss (trees ++ [t])
+
+end Prog
+
 /-! ### `safe_sparse_dot` (basics.py): which product is taken -/
 
 inductive Operand
